@@ -324,6 +324,13 @@ func (s *Server) manifestPut(repoStr, arg string) http.HandlerFunc {
 				s.log.Debug("failed to parse image manifest", "repo", repoStr, "arg", arg, "mediaType", mt, "err", err)
 				return
 			}
+			if m.Manifests == nil || (m.MediaType != "" && !types.MediaTypeIndex(m.MediaType)) {
+				// the body is not an index (e.g. an image manifest sent with an index content type)
+				w.WriteHeader(http.StatusBadRequest)
+				_ = types.ErrRespJSON(w, types.ErrInfoManifestInvalid("manifest does not match media type: "+mt))
+				s.log.Debug("manifest does not match media type", "repo", repoStr, "arg", arg, "mediaType", mt)
+				return
+			}
 			addOpts = append(addOpts, types.IndexWithChildren(m.Manifests))
 			// validate manifests exist
 			eList := s.manifestVerifyIndex(repo, m)
